@@ -1198,3 +1198,40 @@ def t_opt_load_siblings(facts, res, tier):
                          "those of whatever was loaded last, and a following BEQ/BNE/BMI/BPL tests the wrong value (`X = b; Y = c; X = b; if (X)` branches on c)" % reg,
                          {"guards": conds})
                 break
+
+
+# ----------------------------------------------------------------------------- C04 / C03 (zero page and constant offsets)
+
+
+@rule("T-ZP-OFFSET", floor=3,
+      text="in asm(), where an operand that can carry a constant offset (`name+k`, the Absolute kind) is given the 2-byte zero-page size, the "
+           "decision takes the offset into account: a variable at a constant zero-page address indexed past $FF (`char *const p = 0xf0; p[0x20]`) "
+           "is assembled in absolute mode (3 bytes)")
+def t_zp_offset(facts, res, tier):
+    import genmodel
+    fn = facts.fn("asm", genmodel.GEN_QUAL)
+    arm = None
+    for n in walk(fn["body"]):
+        if n.get("k") == "match":
+            for a in n["arms"]:
+                if re.match(r"^ExprType::Absolute\(", pat_text(a["pat"]).replace(" ", "")):
+                    arm = a
+    if arm is None:
+        raise AnchorMissing("asm(): arm for ExprType::Absolute not found")
+    sites = 0
+    for n in walk(arm["body"]):
+        if n.get("k") != "if":
+            continue
+        ct = norm(n["cond"])
+        sets2 = any(x.get("k") == "assign" and root_name(x["l"]) == "nb_bytes" and x["r"].get("k") == "lit" and x["r"].get("v") == 2 for x in (n["then"].get("stmts", []) if n["then"].get("k") == "block" else []))
+        if not sets2 or "eropage" not in ct:
+            continue
+        sites += 1
+        key = "T-ZP-OFFSET:asm:%d" % sites
+        res.inst(key, True, {"condition": ct})
+        if not re.search(r"\boff(set)?\b", ct):
+            res.fail("T-ZP-OFFSET:asm:offset-ignored", facts.where(fn, n),
+                     "asm() gives an Absolute operand the zero-page size on `%s` alone: with a constant offset the address can leave the zero page "
+                     "(`p+32` with p = $F0 is $110) and the assembler emits one byte more than reported" % ct)
+    if sites == 0:
+        raise AnchorMissing("asm(): no zero-page size decision found in the Absolute arm")
